@@ -244,3 +244,7 @@ def units(tier):
     for i in range(4 if q else 16):
         us.append({'name': 'gen-%d' % i, 'fn': 'unit_generated', 'kwargs': {'n': 250 if q else 5000}})
     return us
+
+
+# dimensions added after the fourth and fifth round of seeded changes (DESIGN.md 8.3, 8.4); part of the rule reported in the evidence
+RULE += ' Added with the fourth and fifth round of seeded changes: function / kwargs attributes set on the object after construction; sibling Synchronizer with other keyword arguments; user function returning one reused buffer.'
